@@ -26,6 +26,7 @@ type c01Scenario struct {
 	Edges  []c01Edge
 	Events []string
 	Bound  int
+	Aged   int // >0: the mesh runs this many route-update periods before the first event (long-lived nodes: high sequence numbers)
 }
 
 func (sc c01Scenario) String() string {
@@ -37,7 +38,11 @@ func (sc c01Scenario) String() string {
 		}
 		es = append(es, fmt.Sprintf("%s-%s:%g%s", e.X, e.Y, e.Cost, o))
 	}
-	return fmt.Sprintf("n=%d edges=[%s] events=[%s] d=%d", len(sc.Names), strings.Join(es, " "), strings.Join(sc.Events, "; "), sc.Bound)
+	aged := ""
+	if sc.Aged > 0 {
+		aged = fmt.Sprintf(" aged=%d", sc.Aged)
+	}
+	return fmt.Sprintf("n=%d edges=[%s] events=[%s]%s d=%d", len(sc.Names), strings.Join(es, " "), strings.Join(sc.Events, "; "), aged, sc.Bound)
 }
 
 func (m *mesh) upEdge(e c01Edge) {
@@ -99,6 +104,9 @@ func runC01Once(w *W, sc c01Scenario, r *xrun) []Violation {
 		}
 		m.closure(1)
 		m.checkRouting(&out, "after bring-up")
+		if sc.Aged > 0 {
+			m.closure(sc.Aged)
+		}
 		stopped := map[string][]c01Edge{}
 		mon := func() { m.checkConnsSubset(&out, "intermediate") }
 		aborted := false
@@ -286,6 +294,21 @@ func runC01(w *W) {
 			{n4, c01Topologies4(), 2, 0, r4},
 		}
 	}
+	// long-lived meshes: the nodes have sent dozens of periodic updates before anything happens; the closure
+	// after the last event stays at 4 periods
+	tri := []c01Edge{{X: "a", Y: "b", Cost: 1}, {X: "b", Y: "c", Cost: 1}, {X: "a", Y: "c", Cost: 3}}
+	agedEvents := [][]string{
+		{"stop c", "restart c"}, {"stop b", "restart b"}, {"down a b", "up a b 1"}, {"silent b c"},
+		{"stop c", "restart c", "down a c"}, {"stop b", "restart b", "down a b"},
+	}
+	for _, evs := range agedEvents {
+		b := 1
+		if len(evs) > 2 {
+			b = 0
+		}
+		sc := c01Scenario{Names: n3, Edges: tri, Events: evs, Bound: b, Aged: 25}
+		w.explorerCase(sc.String(), sc.Bound, func(r *xrun) []Violation { return runC01Once(w, sc, r) })
+	}
 	done := map[string]bool{}
 	for _, p := range plans {
 		for _, top := range p.tops {
@@ -401,7 +424,7 @@ func init() {
 		ID:        "C01",
 		Level:     "model_checking",
 		Technique: "stateless deviation-bounded DFS with state-hash pruning over message-delivery schedules of real Netceptor nodes in a synctest bubble (virtual time, harness-owned links); Floyd–Warshall oracle on ground truth",
-		Rule: "scenario = initial weighted topology (all 3-node graphs x cost variants incl. a per-node cost override; seven 4-node graphs) x every sequence of <=k events from {down, up, silent, stop, restart}; " +
+		Rule: "scenario = initial weighted topology (all 3-node graphs x cost variants incl. a per-node cost override; seven 4-node graphs) x every sequence of <=k events from {down, up, silent, stop, restart}; six event sequences on a triangle that has run 25 route-update periods before the first event (long-lived nodes with high sequence numbers); " +
 			"per scenario every delivery schedule with <=d deviations from the canonical one (choice points: which link/batch member to deliver, hold a link, early timer tick, next event before the flood settled). " +
 			"A case is one scenario; non-trivial = it had at least one choice point. evaluations counts scenarios; counters.executions counts complete executions of the real code.",
 		Assumptions: []string{
